@@ -17,7 +17,7 @@ for name, props in re.findall(r'"(\w+)": \[([^\]]*)\]', src[src.index("CASES = {
         cases.setdefault(p, []).append(name)
 seeded = {}
 for d in sorted(os.listdir(os.path.join(ROOT, "seeded"))):
-    seeded.setdefault(d.split("-")[0].rstrip("bcdefghij"), []).append(d)
+    seeded.setdefault(d.split("-")[0].rstrip("abcdefghijklmnopqrstuvwxyz"), []).append(d)
 for p in sorted(units):
     ev = {}
     try:
